@@ -1,9 +1,9 @@
 CONSTANTS
  Producers = {"p1","p2"}
  K = 2
- Shapes <- ShOk12
- MaxFaults = 2
- MaxCrashes = 1
+ Shapes <- ShConcat
+ MaxFaults = 0
+ MaxCrashes = 0
  MaxIdxLoss = 0
  SyncFlush = TRUE
  InlineAt = 0
@@ -15,7 +15,7 @@ CONSTANTS
  FixReadOrder = TRUE
  FixRange = TRUE
  FixIndexSearch = TRUE
- FixValidate = TRUE
+ FixValidate = FALSE
  DevNoWait = FALSE
  DevCommitBeforeIndex = FALSE
  DevRestoreKeepsOffset = FALSE
@@ -29,4 +29,4 @@ INIT Init
 NEXT Next
 VIEW View
 CHECK_DEADLOCK FALSE
-INVARIANTS C01_AckedDurable C02_Unique C02_Monotone C02_NoGap C02_BaseIsStored C05_Monotone C05_NotAhead C06_NoHide C06_NoReuse
+INVARIANTS C02_Monotone
